@@ -40,6 +40,7 @@ type state struct {
 	crashed  bool
 	open     map[*File]struct{}
 	failAt   map[int]error // inject an error instead of performing mutating call k
+	failCut  map[int]int   // with failAt on a write: that many bytes reach the file before the error (a short write)
 }
 
 var st = state{open: map[*File]struct{}{}}
@@ -55,6 +56,7 @@ func Reset(logOn bool) {
 	st.crashCut = -1
 	st.crashed = false
 	st.failAt = nil
+	st.failCut = nil
 	for f := range st.open {
 		_ = f.f.Close()
 	}
@@ -72,6 +74,15 @@ func FailAt(k int, err error) {
 		st.failAt = map[int]error{}
 	}
 	st.failAt[k] = err
+}
+
+// FailShortAt makes write call k store the first cut bytes and then return err (disk full in the middle of a chunk).
+func FailShortAt(k, cut int, err error) {
+	FailAt(k, err)
+	if st.failCut == nil {
+		st.failCut = map[int]int{}
+	}
+	st.failCut[k] = cut
 }
 
 func Crashed() bool { return st.crashed }
@@ -213,8 +224,16 @@ func (f *File) Write(p []byte) (int, error) {
 	if f == nil {
 		return 0, os.ErrInvalid
 	}
-	_, cut, err := pre("write", f.name, "", true, len(p))
+	seq, cut, err := pre("write", f.name, "", true, len(p))
 	if err != nil {
+		if c, ok := st.failCut[seq]; ok && c > 0 {
+			if c > len(p) {
+				c = len(p)
+			}
+			n, _ := f.f.Write(p[:c])
+			stamp(f.name)
+			return n, err
+		}
 		return 0, err
 	}
 	if cut >= 0 {
